@@ -195,3 +195,26 @@ reg("C17", "E3 command-line enumeration",
     "Trusted: 'exactly as the library API reports them' is checked against the same tree's API "
     "(C01-C12 decide the API itself). Several version flags: any one is admitted.",
     "DESIGN.md section 3, C17")
+
+reg("C18", "E3 operation-sequence BFS",
+    "explicit-state BFS over operation histories on real objects with canonical state snapshots "
+    "(dedup by snapshot hash, to fixpoint) + exhaustive black-box enumeration of all accessor "
+    "sequences up to depth 2-3; oracle = fresh-object differential",
+    "15-16 operations per family (every accessor, as_json with all option pairs, as_json followed "
+    "by vandalising the returned dict, ==, hash) on 92 (quick) / 172 (thorough) seeds: in every "
+    "reached state every operation must return what it returns on a fresh object; all sequences of "
+    "length <=2 on every seed and <=3 on a third (quick) / all (thorough).",
+    "Trusted: the snapshot (vars(obj), all module-level data of the package, decimal context, "
+    "sys.path, warnings filters) captures the state; the black-box pass covers the rest up to its "
+    "depth.", "DESIGN.md section 3, C18")
+
+reg("C20", "E5 configuration matrix",
+    "exhaustive enumeration of (interpreter, input) pairs: one probe program (2/3 common subset) "
+    "runs under all ten installed interpreters; chunk digests of canonical JSON result lines must "
+    "equal the reference interpreter's",
+    "CPython 2.7.18, 3.6.15 ... 3.13.0 and /venv's 3.12 x ~17k (quick) / ~45k (thorough) cases: "
+    "vectors of every version, invalid strings, RH notation, texts (result lists compared as "
+    "lists), interactive scripts with transcripts, command lines with stdout/status. The list of "
+    "things deliberately not compared is in the evidence (not_compared).",
+    "Trusted: the reference interpreter's results are decided by C01-C19; sha256.",
+    "DESIGN.md section 3, C20")
